@@ -183,9 +183,119 @@ def mutate(rng, b):
     return bytes(rng.getrandbits(8) for _ in range(rng.choice([0, 1, 5, 6, 7, 10, 14, 20, 40])))
 
 
+BUILDERS = ['payload', 'request_n', 'cancel', 'request_channel', 'request_stream', 'request_response', 'fire_and_forget', 'setup',
+            'metadata_push', 'keepalive']
+MAX_N = 2 ** 31 - 1
+
+
+def gen_call(rng):
+    """one call of a function of rsocket/frame_builders.py, with the kinds of argument the call sites pass: payload parts that are
+    None / empty / bytes / bytearray, optional arguments given or left to their defaults"""
+    def part():
+        r = rng.random()
+        return None if r < 0.25 else ('' if r < 0.45 else FR.rbytes(rng, 1, rng.choice([3, 60, 300])).hex())
+    b = rng.choice(BUILDERS)
+    c = {'kind': 'build', 'b': b, 'sid': rng.choice([1, 2, 3, 7, 2 ** 31 - 1, FR.rint(rng, 31) or 1]), 'md': part(), 'd': part(),
+         'ba': rng.random() < 0.2}
+    if b == 'payload':
+        c.update(C=rng.choice([None, False, True]), N=rng.choice([None, False, True]))
+    elif b in ('request_n', 'request_channel', 'request_stream'):
+        c['n'] = rng.choice([None, 1, 2, 255, 256, MAX_N, FR.rint(rng, 31) or 1])
+        if b == 'request_channel':
+            c['C'] = rng.choice([None, False, True])
+    elif b == 'setup':
+        ms = lambda: rng.choice([0, 1, 500, 999, 1000, 86400000, 2 ** 31 - 1, FR.rint(rng, 31)])
+        off = lambda: rng.choice([0, 0, 0, rng.randint(1, 499), -rng.randint(1, 499)])
+        c.update(P=rng.random() < 0.7, L=rng.choice([None, False, True]), ka=max(0, ms() * 1000 + off()), life=max(0, ms() * 1000 + off()),
+                 denc=FR.rbytes(rng, 1, 30).hex(), mdenc=FR.rbytes(rng, 1, 30).hex())
+    return c
+
+
+def _part(c, k):
+    v = c[k]
+    if v is None:
+        return None
+    b = bytes.fromhex(v)
+    return bytearray(b) if c.get('ba') else b
+
+
+def impl_build(c):
+    from datetime import timedelta
+    from rsocket import frame as F
+    from rsocket import frame_builders as B
+    from rsocket.payload import Payload
+    pl = Payload(_part(c, 'd'), _part(c, 'md'))
+    b = c['b']
+    kw = {}
+    if b == 'payload':
+        if c['C'] is not None:
+            kw['complete'] = c['C']
+        if c['N'] is not None:
+            kw['is_next'] = c['N']
+        fr = B.to_payload_frame(c['sid'], pl, **kw)
+    elif b == 'request_n':
+        fr = B.to_request_n_frame(c['sid']) if c['n'] is None else B.to_request_n_frame(c['sid'], c['n'])
+    elif b == 'cancel':
+        fr = B.to_cancel_frame(c['sid'])
+    elif b == 'request_channel':
+        if c['n'] is not None:
+            kw['initial_request_n'] = c['n']
+        if c['C'] is not None:
+            kw['complete'] = c['C']
+        fr = B.to_request_channel_frame(c['sid'], pl, **kw)
+    elif b == 'request_stream':
+        if c['n'] is not None:
+            kw['initial_request_n'] = c['n']
+        fr = B.to_request_stream_frame(c['sid'], pl, **kw)
+    elif b == 'request_response':
+        fr = B.to_request_response_frame(c['sid'], pl)
+    elif b == 'fire_and_forget':
+        loop()
+        fr = B.to_fire_and_forget_frame(c['sid'], pl)
+    elif b == 'setup':
+        if c['L'] is not None:
+            kw['honor_lease'] = c['L']
+        fr = B.to_setup_frame(pl if c['P'] else None, bytes.fromhex(c['denc']), bytes.fromhex(c['mdenc']),
+                              timedelta(microseconds=c['ka']), timedelta(microseconds=c['life']), **kw)
+    elif b == 'metadata_push':
+        loop()
+        fr = B.to_metadata_push_frame(_part(c, 'md'))
+    else:
+        fr = B.to_keepalive_frame(_part(c, 'd'))
+    out = {'dump': FR.dump(fr), 'fsb': getattr(fr, 'fragment_size_bytes', 'unset') is None,
+           'fut': getattr(fr, 'sent_future', None) is not None}
+    one = fr.serialize()
+    out['hex'] = one.hex()
+    out['dec'] = FR.dump(F.parse_or_ignore(one))
+    return out
+
+
+def build_line(c):
+    """the call as the driver's `build` command reads it: omitted optional arguments appear with the documented defaults"""
+    o = lambda k: 'N' if c[k] is None else (c[k] or '-')
+    b = c['b']
+    if b == 'payload':
+        return 'build payload sid=%d md=%s d=%s C=%s N=%s' % (c['sid'], o('md'), o('d'), FR.b01(bool(c['C'])), FR.b01(True if c['N'] is None else c['N']))
+    if b == 'request_n':
+        return 'build request_n sid=%d n=%d' % (c['sid'], MAX_N if c['n'] is None else c['n'])
+    if b == 'cancel':
+        return 'build cancel sid=%d' % c['sid']
+    if b == 'request_channel':
+        return 'build request_channel sid=%d md=%s d=%s n=%d C=%s' % (c['sid'], o('md'), o('d'), MAX_N if c['n'] is None else c['n'], FR.b01(bool(c['C'])))
+    if b == 'request_stream':
+        return 'build request_stream sid=%d md=%s d=%s n=%d' % (c['sid'], o('md'), o('d'), MAX_N if c['n'] is None else c['n'])
+    if b in ('request_response', 'fire_and_forget'):
+        return 'build %s sid=%d md=%s d=%s' % (b, c['sid'], o('md'), o('d'))
+    if b == 'setup':
+        return 'build setup P=%s md=%s d=%s denc=%s mdenc=%s ka=%d life=%d L=%s' % (FR.b01(c['P']), o('md'), o('d'), c['denc'], c['mdenc'], c['ka'], c['life'], FR.b01(bool(c['L'])))
+    if b == 'metadata_push':
+        return 'build metadata_push md=%s' % o('md')
+    return 'build keepalive d=%s' % o('d')
+
+
 class C02(Prop):
     id = 'C02'
-    lean_modules = ['RSocketModel.Props.C02']
+    lean_modules = ['RSocketModel.Props.C02', 'RSocketModel.Props.C02Builders']
     technique = 'Lean 4 proof (per-constructor round-trip over a front-consuming decoder mirroring unpack_from/slice semantics) + differential correspondence on both backends'
     level_text = ('c02_decode_encode (decode(encode f) = canon f for every legal value of all 14 types), c02_reencode, c02_partial_write, '
                   'c02_length_prefix_exact, c02_metadata_push_nonzero_ignored are kernel-checked; c02_constants ties the model literals to the regenerated '
@@ -235,6 +345,9 @@ class C02(Prop):
                 s1 = FR.gen_spec(rng)
                 s2 = FR.gen_spec(rng, kinds=[s1['t']])
                 out.append({'kind': 'reuse', 'how': how, 'spec1': s1, 'spec2': s2})
+        # calls of the frame builders (rsocket/frame_builders.py): from the application's Payload to a frame value and its bytes
+        for _ in range(1500 if tier == 'quick' else 40000):
+            out.append(gen_call(rng))
         for _ in range(n):
             spec = FR.gen_spec(rng)
             try:
@@ -261,6 +374,8 @@ class C02(Prop):
             return {'dec': impl_decode(bytes.fromhex(case['blob']))}
         if case['kind'] == 'reuse':
             return impl_reuse(case)
+        if case['kind'] == 'build':
+            return impl_build(case)
         here = {'enc': [impl_encode(s) for s in case['specs']], 'dec': [impl_decode(bytes.fromhex(b)) for b in case['blobs']]}
         p = subprocess.run([sys.executable, '-c', _CHILD % (REPO, VERIF)], input=json.dumps({'specs': case['specs'], 'blobs': case['blobs']}),
                            stdout=subprocess.PIPE, stderr=subprocess.PIPE, text=True, timeout=600,
@@ -284,6 +399,8 @@ class C02(Prop):
             return ['enc ' + FR.spec_line(norm_spec(case['spec']))]
         if case['kind'] == 'dec':
             return ['dec ' + (case['blob'] or '-')]
+        if case['kind'] == 'build':
+            return [build_line(case)]
         if case['kind'] == 'reuse':
             # the model encodes the *value* the object holds (as dumped from the object's fields)
             d = obs['dump']
@@ -322,6 +439,16 @@ class C02(Prop):
                 return 'bytes of a %s frame object differ: impl %s / model %s' % (case['how'], obs['hex'][:120], hexs[:120])
             if ';'.join(obs['writes']) != writes:
                 return 'tcp writes of a %s frame object differ: impl %s / model %s' % (case['how'], ';'.join(obs['writes'])[:160], writes[:160])
+        elif case['kind'] == 'build':
+            parts = answers[0].split(' | ')
+            if len(parts) != 3:
+                return 'model cannot read the builder call: %s' % answers[0][:80]
+            if parts[2] != 'same':
+                return 'the regenerated builder (Gen/Builders.lean) and the hand-written rule differ on %s: %s' % (build_line(case)[:120], parts[2][:160])
+            if obs['dump'] != parts[0]:
+                return 'frame built by to_%s_frame differs: impl %s / model %s' % (case['b'], obs['dump'][:200], parts[0][:200])
+            if obs['hex'] != parts[1]:
+                return 'bytes of the frame built by to_%s_frame differ: impl %s / model %s' % (case['b'], obs['hex'][:120], parts[1][:120])
         elif case['kind'] == 'dec':
             if answers[0] == 'OUT-OF-DOMAIN':
                 return None
@@ -358,6 +485,42 @@ class C02(Prop):
                               'what': 'a %s %s frame object: TransportTCP writes %s but the length-prefixed one-shot encoding of the same object is %s' % (case['how'], t, ''.join(obs['writes'])[:80], want[:80])})
             if obs['with_len'] != want:
                 fails.append({'signature': 'length-header-wrong:' + t, 'what': 'a %s frame object: serialize_with_frame_size_header disagrees with len(serialize())' % case['how']})
+        elif case['kind'] == 'build':
+            # independent of the model: what the peer decodes carries the application's bytes, on the stream named, with the flags asked for
+            b = case['b']
+            f = dict(t.split('=', 1) for t in obs['dec'].split(' ')[1:] if '=' in t)
+            want_t = {'payload': 'PAYLOAD', 'request_n': 'REQUEST_N', 'cancel': 'CANCEL', 'request_channel': 'REQUEST_CHANNEL', 'request_stream': 'REQUEST_STREAM',
+                      'request_response': 'REQUEST_RESPONSE', 'fire_and_forget': 'REQUEST_FNF', 'setup': 'SETUP', 'metadata_push': 'METADATA_PUSH', 'keepalive': 'KEEPALIVE'}[b]
+            has_pl = b in ('payload', 'request_channel', 'request_stream', 'request_response', 'fire_and_forget') or (b == 'setup' and case['P'])
+            wmd = (case['md'] or '-') if (has_pl or b == 'metadata_push') else '-'
+            wd = (case['d'] or '-') if (has_pl or b == 'keepalive') else '-'
+            bad = None
+            if obs['dec'].split(' ')[0] != want_t:
+                bad = 'decodes as %s' % obs['dec'].split(' ')[0]
+            elif int(f['sid']) != (case['sid'] if b not in ('setup', 'metadata_push', 'keepalive') else 0):
+                bad = 'stream id %s' % f['sid']
+            elif 'md' in f and f['md'] != wmd:
+                bad = 'metadata %s instead of %s' % (f['md'][:60], wmd[:60])
+            elif 'd' in f and f['d'] != wd:
+                bad = 'data %s instead of %s' % (f['d'][:60], wd[:60])
+            elif f.get('F', '0') != '0' or f['I'] != '0':
+                bad = 'FOLLOWS / IGNORE set on a whole frame'
+            elif b in ('payload', 'request_channel') and f['C'] != FR.b01(bool(case['C'])):
+                bad = 'COMPLETE=%s but the caller said %r' % (f['C'], case['C'])
+            elif b == 'payload' and f['N'] != FR.b01((True if case['N'] is None else case['N']) or wmd != '-' or wd != '-'):
+                bad = 'NEXT=%s' % f['N']
+            elif b in ('request_n', 'request_channel', 'request_stream') and int(f['n']) != (MAX_N if case['n'] is None else case['n']):
+                bad = 'request-n %s instead of %r' % (f['n'], case['n'])
+            elif b == 'setup' and (f['L'] != FR.b01(bool(case['L'])) or f['R'] != '0' or f['ver'] != '1.0' or f['denc'] != case['denc'] or f['mdenc'] != case['mdenc']):
+                bad = 'SETUP fields %s' % obs['dec'][:120]
+            elif b == 'setup' and any(us % 1000 == 0 and int(f[k]) != us // 1000 for k, us in (('ka', case['ka']), ('life', case['life']))):
+                bad = 'SETUP times ka=%s life=%s for %d us / %d us' % (f['ka'], f['life'], case['ka'], case['life'])
+            elif b == 'keepalive' and (f['R'] != '1' or f['pos'] != '0'):
+                bad = 'KEEPALIVE %s' % obs['dec'][:80]
+            elif b in ('fire_and_forget', 'metadata_push') and not obs['fut']:
+                bad = 'no sent_future on a one-way frame'
+            if bad:
+                fails.append({'signature': 'builder:' + b, 'what': 'to_%s_frame(%s): the peer %s' % (b, build_line(case)[6:160], bad)})
         elif case['kind'] == 'backend':
             if obs['ndiffs']:
                 d = obs['diffs'][0]
@@ -374,6 +537,8 @@ class C02(Prop):
             return case['blob'] if len(case['blob']) >= 12 else None
         if case['kind'] == 'reuse':
             return case['how'] + obs['hex']
+        if case['kind'] == 'build':
+            return build_line(case) if (case['md'] or case['d'] or case['b'] in ('setup', 'request_n')) else None
         return json.dumps(case['blobs'][:3])
 
     def stats(self, case, obs):
@@ -382,6 +547,9 @@ class C02(Prop):
             yield 'type=' + case['spec']['t']
         if case['kind'] == 'dec':
             yield 'decoded=' + obs['dec'].split(' ')[0]
+        if case['kind'] == 'build':
+            yield 'builder=' + case['b']
+            yield 'payload-parts=%s/%s' % tuple('None' if case[k] is None else ('empty' if case[k] == '' else 'bytes') for k in ('md', 'd'))
         if case['kind'] == 'reuse':
             yield 'object-history=' + case['how']
             yield 'type=' + obs['dump'].split(' ')[0]
@@ -396,6 +564,13 @@ class C02(Prop):
             for k in ('I', 'F', 'C', 'N', 'L', 'R'):
                 if s.get(k):
                     yield {'kind': 'enc', 'spec': dict(s, **{k: False})}
+        elif case['kind'] == 'build':
+            for k in ('md', 'd'):
+                if case[k]:
+                    yield dict(case, **{k: case[k][:2]})
+                    yield dict(case, **{k: None})
+            if case.get('ba'):
+                yield dict(case, ba=False)
         elif case['kind'] == 'backend':
             if len(case['specs']) > 1 or len(case['blobs']) > 1:
                 h = len(case['specs']) // 2
